@@ -162,14 +162,23 @@ def functions():
 
 
 def main(tier):
+    from vlib import auxb
     from vlib.chplug import enginea
 
-    return enginea.main(__name__, tier)
+    extra, cov = auxb.run("harness.aux_c15_leader", tier)
+    return enginea.main(__name__, tier, extra_results=extra, extra_cov=cov)
 
 
 def replay(path):
+    import json
+
     from vlib.chplug import enginea
 
+    v = json.load(open(path))
+    if v.get("leader"):
+        from vlib import auxb
+
+        return auxb.replay("harness.aux_c15_leader", v)
     return enginea.replay_file(__name__, path)
 
 
